@@ -77,6 +77,11 @@ def normalise(body, is_block, lenient=False):
                 log.append(f"R8: pushed expression {mpush.group(1)!r} -> opaque value")
                 out.append("env.push(opaque_value());")
                 continue
+            if not _POP.search(st1) and neutral(st1):
+                fallible = bool(re.search(r"\?|\breturn Err\(", st1))
+                log.append(f"R8: stack-neutral statement {st1[:50]!r} -> opaque " + ("fallible step" if fallible else "step"))
+                out.append("opaque_unit()?;" if fallible else "opaque_unit_infallible();")
+                continue
             pops = _POP.findall(st1)
             if len(pops) == 1 and not re.fullmatch(r"(let (mut )?\w+ = )?env\.pop\([^()]*\)\?", st1):
                 rest = _POP.sub("POPPED", st1)
@@ -129,6 +134,26 @@ def normalise(body, is_block, lenient=False):
             else:
                 out.append("opaque_unit()?;" if fallible else "opaque_unit_infallible();")
     return "".join("        " + o + "\n" for o in out), log
+
+
+_ENV_READONLY = {"error", "span", "error_with_span", "ctx", "stack_height", "scalar_fill", "scalar_unfill"}
+
+
+def neutral(st):
+    """A statement that cannot move values on the interpreter's stacks: it mentions no stack operation of `env`,
+    every `env.<method>(` it calls is a read-only one, no callee that is handed `env` takes `&mut Uiua`, it does not
+    return early with success and contains no conditional compilation."""
+    if re.search(r"#\[cfg|\breturn Ok\b|\breturn;|\bcontinue\b|\bbreak\b", st):
+        return False
+    for m in re.finditer(r"\benv\s*\.\s*(\w+)\s*\(", st):
+        if m.group(1) not in _ENV_READONLY:
+            return False
+    if re.search(r"&mut\s+\*?env\b|\benv\.rt\.(stack|under_stack|call_stack|fill_stack|unfill_stack|fill_boundary_stack|local_stack)\b", st):
+        return False
+    for meth in calls_with_env(st):
+        if meth not in _ENV_READONLY and takes_mut_env(meth):
+            return False
+    return True
 
 
 def calls_with_env(text):
@@ -201,6 +226,75 @@ def primtable(log=None):
     return tab
 
 
+_ITABLE = None
+
+
+def impl_unit_variants():
+    """names of the payload-free variants listed in the impl_primitive! invocation (src/impl_prim.rs); used only to
+    decide which variants the table driver can name, the numbers come from the compiled code"""
+    t = open(os.path.join(REPO, "src", "impl_prim.rs")).read()
+    i = t.index("impl_primitive!(")
+    return re.findall(r"(?m)^\s*\(\s*\d+(?:\(\d+\))?(?:\[\d+\])?\s*,\s*(\w+)\s*(?:,\s*\w+)?\s*\),?\s*$", t[i:])
+
+
+def impltable(log=None):
+    """{Variant: (args, outputs, modifier_args)} of `uiua::ImplPrimitive`, printed by a driver linked against REPO"""
+    global _ITABLE
+    if _ITABLE is not None:
+        return _ITABLE
+    names = impl_unit_variants()
+    d = os.path.join(SCRATCH, "impltable")
+    os.makedirs(os.path.join(d, "src"), exist_ok=True)
+    body = "".join(f'    p("{n}", ImplPrimitive::{n});\n' for n in names)
+    with open(os.path.join(d, "src", "main.rs"), "w") as f:
+        f.write("//! GENERATED by lib/leafarms.py: prints `Variant args outputs modifier_args` of uiua::ImplPrimitive\n"
+                "use uiua::ImplPrimitive;\nfn p(n: &str, x: ImplPrimitive) {\n"
+                "    let g = |v: Option<usize>| v.map(|x| x as i64).unwrap_or(-1);\n"
+                '    println!("{} {} {} {}", n, g(x.args()), g(x.outputs()), g(x.modifier_args()));\n}\n'
+                "fn main() {\n" + body + "}\n")
+    with open(os.path.join(d, "Cargo.toml"), "w") as f:
+        f.write('[package]\nname = "impltable"\nversion = "0.0.0"\nedition = "2024"\n[dependencies]\n'
+                f'uiua = {{ path = "{REPO}", default-features = false }}\n[workspace]\n')
+    shutil.copy(os.path.join(REPO, "Cargo.lock"), os.path.join(d, "Cargo.lock"))
+    rc, out, dt = run(["cargo", "run", "--offline", "-q"], cwd=d, timeout=2400,
+                      env={"CARGO_TARGET_DIR": os.path.join(SCRATCH, "impltable-target")})
+    tab = {}
+    for l in out.split("\n"):
+        m = re.fullmatch(r"(\w+) (-?\d+) (-?\d+) (-?\d+)", l.strip())
+        if m:
+            tab[m.group(1)] = (int(m.group(2)), int(m.group(3)), int(m.group(4)))
+    if len(tab) < 50:
+        raise RuntimeError("impltable driver failed: " + out[-1500:])
+    _ITABLE = tab
+    return tab
+
+
+def impl_arm_names():
+    p = os.path.join(VERIF, "contracts", "verus", "leaf_impl_arms.txt")
+    return [l.strip() for l in open(p) if l.strip() and not l.startswith("#")]
+
+
+def discover_impl():
+    """(maintenance) arms of ImplPrimitive::run (src/run_prim.rs) that are leaf-shaped and name a payload-free variant"""
+    src = open(os.path.join(REPO, "src", "run_prim.rs")).read()
+    info = extract.find_fn_in_impls(src, "run", r"^impl ImplPrimitive \{")
+    body = src[info["body_start"]:info["body_end"]]
+    names = re.findall(r"(?m)^            ImplPrimitive::(\w+) => ", body)
+    units = set(impl_unit_variants())
+    ok, bad = [], []
+    for n in names:
+        if n not in units:
+            bad.append((n, "not a payload-free variant of the table"))
+            continue
+        try:
+            abody, is_block, span = extract.find_arm(src, r"ImplPrimitive::" + n, info["body_start"], info["body_end"])
+            normalise(abody, is_block, lenient=True)
+            ok.append(n)
+        except (NotLeafShaped, extract.AnchorLost) as ex:
+            bad.append((n, str(ex)))
+    return ok, bad
+
+
 def arm_names():
     p = os.path.join(VERIF, "contracts", "verus", "leaf_arms.txt")
     return [l.strip() for l in open(p) if l.strip() and not l.startswith("#")]
@@ -238,14 +332,21 @@ def discover():
     for n in names:
         try:
             abody, is_block, span = extract.find_arm(src, r"Primitive::" + n, info["body_start"], info["body_end"])
-            normalise(abody, is_block)
+            normalise(abody, is_block, lenient=True)
             ok.append(n)
         except (NotLeafShaped, extract.AnchorLost) as ex:
             bad.append((n, str(ex)))
     return ok, bad
 
 
-if __name__ == "__main__" and len(__import__("sys").argv) > 1 and __import__("sys").argv[1] == "sys":
+if __name__ == "__main__" and len(__import__("sys").argv) > 1 and __import__("sys").argv[1] == "impl":
+    ok, bad = discover_impl()
+    print(len(ok), "leaf-shaped;", len(bad), "not:")
+    for n, why in bad:
+        print("   ", n, "-", why)
+    open(os.path.join(VERIF, "contracts", "verus", "leaf_impl_arms.txt"), "w").write(
+        "# arms of ImplPrimitive::run (src/run_prim.rs) under the C02 leaf contract; generated once by `lib/leafarms.py impl`, then fixed\n" + "\n".join(ok) + "\n")
+elif __name__ == "__main__" and len(__import__("sys").argv) > 1 and __import__("sys").argv[1] == "sys":
     ok, bad = discover_sys()
     print(len(ok), "leaf-shaped;", len(bad), "not:")
     for n, why in bad:
